@@ -21,6 +21,7 @@
    only; the proofs are in Proofs/C09_*.v. *)
 From Coq Require Import ZArith List Bool.
 From PTK Require Import Lib.Sx Lib.Py Gen.Whitespace Model.Document Model.BufferEdit.
+From PTK Require Model.C02_DocQueries.
 Import ListNotations.
 Open Scope Z_scope.
 
@@ -537,8 +538,9 @@ Definition vi_visual (s : st) (sel : Z * Z) (key r : Z) : out :=
    text_object_decorator's _apply_operator_to_text_object, which calls it with the
    operator's key sequence).  op: 0 = d, 1 = y, 2 = c (followed by Escape);
    reg < 0: no register prefix; motion keys: 0 = l, 1 = h, 2 = $, 3 = 0, 4 = ^,
-   5 = e, 6 = b, 7 = B.  The count typed before the operator is operator_arg; the
-   motion's event.arg becomes operator_arg * 1.  Result of the text object
+   5 = e, 6 = b, 7 = B, 8 = w, 9 = W.  The count typed before the operator is
+   operator_arg, a count typed between operator and motion is the motion's own
+   event.arg; the text object function sees their product (op_count).  Result of the text object
    function: (start, type), end = 0; None = no text object. *)
 Definition motion_obj (d : doc) (m arg : Z) : option (Z * Z) :=
   if m =? 0 then Some (get_cursor_right_position d arg, EXCLUSIVE)
@@ -547,15 +549,29 @@ Definition motion_obj (d : doc) (m arg : Z) : option (Z * Z) :=
   else if m =? 3 then Some (get_start_of_line_position d false, EXCLUSIVE)
   else if m =? 4 then Some (get_start_of_line_position d true, EXCLUSIVE)
   else if m =? 5 then
-    (* end = find_next_word_ending(count); TextObject(end - 1, INCLUSIVE) if end else None *)
-    match find_next_word_ending d arg with
+    (* end = find_next_word_ending(count); TextObject(end - 1, INCLUSIVE) if end else None.
+       The word scanners under an operator are C02's models (Model/C02_DocQueries.v), so
+       that C02's exactness theorems apply to the spans *)
+    match C02_DocQueries.find_next_word_ending d false arg false with
     | Some e => if e =? 0 then None else Some (e - 1, INCLUSIVE)
     | None => None
     end
+  else if (m =? 6) || (m =? 7) then
+    (* b / B: find_start_of_previous_word(count, WORD) or 0 *)
+    Some (match C02_DocQueries.find_start_of_previous_word d arg (m =? 7) with Some p => p | None => 0 end,
+          EXCLUSIVE)
   else
-    (* find_start_of_previous_word(count, WORD) or 0 *)
-    Some (match find_start_of_previous_word d arg (m =? 7) with Some p => p | None => 0 end,
-          EXCLUSIVE).
+    (* w / W (8 / 9): find_next_word_beginning(count, WORD) or get_end_of_document_position() *)
+    Some (match C02_DocQueries.find_next_word_beginning d arg (m =? 9) with
+          | Some p => if p =? 0 then C02_DocQueries.get_end_of_document_position d else p
+          | None => C02_DocQueries.get_end_of_document_position d
+          end, EXCLUSIVE).
+
+(* KeyPressEvent.arg: Don't exceed a million *)
+Definition clamp6 (a : Z) : Z := if 1000000 <=? a then 1 else a.
+(* _apply_operator_to_text_object: event._arg = str((operator_arg or 1) * (event.arg or 1))
+   when either count was typed; marg = 0: no count between operator and motion *)
+Definition op_count (arg marg : Z) : Z := clamp6 (arg * (if marg =? 0 then 1 else clamp6 marg)).
 
 Definition vi_op (s : st) (op reg m arg : Z) : out :=
   let d := cur_doc s in
@@ -613,7 +629,7 @@ Inductive cmd :=
 | ViPasteReg (r : Z) (before : bool)
 | ViVisual (orig ty key r : Z)
 | ViSubst | ViChangeEol | ViChangeLine    (* s Esc, C Esc, S Esc *)
-| ViOp (op reg m : Z).                    (* [reg-prefix] d/y/c motion in navigation mode *)
+| ViOp (op reg m marg : Z).                    (* [reg-prefix] d/y/c motion in navigation mode *)
 
 Definition cmd_id (c : cmd) : Z :=
   match c with
@@ -625,7 +641,7 @@ Definition cmd_id (c : cmd) : Z :=
   | ViPasteReg _ b => if b then 39 else 38
   | ViVisual _ _ k _ => 40 + k
   | ViSubst => 51 | ViChangeEol => 52 | ViChangeLine => 53
-  | ViOp _ _ _ => 60
+  | ViOp _ _ _ _ => 60
   end.
 Definition ARG_ID : Z := 99.
 (* C-w reaches two different Binding objects: unix-word-rubout (basic.py) without
@@ -646,7 +662,7 @@ Definition insert_only (c : cmd) : bool :=
 Definition is_vi_cmd (c : cmd) : bool :=
   match c with
   | ViX | ViBigX | ViD | ViDD | ViYY | ViP | ViBigP | ViPasteReg _ _ | ViVisual _ _ _ _
-  | ViSubst | ViChangeEol | ViChangeLine | ViOp _ _ _ => true
+  | ViSubst | ViChangeEol | ViChangeLine | ViOp _ _ _ _ => true
   | _ => false
   end.
 
@@ -684,7 +700,7 @@ Definition exec (s : st) (c : cmd) (arg : Z) (rep : bool) : out :=
   | ViSubst => vi_escape (vi_subst_core s arg)
   | ViChangeEol => vi_escape (vi_bigC_core s)
   | ViChangeLine => vi_escape (vi_bigS_core s)
-  | ViOp op reg m => vi_op s op reg m arg
+  | ViOp op reg m marg => vi_op s op reg m (op_count arg marg)
   end.
 
 Definition step (s : st) (c : cmd) (argp : option Z) : out :=
@@ -764,7 +780,12 @@ Definition dec_cmd (x : sx) : option (cmd * option Z) :=
           | 38, [A rg] => r (ViPasteReg rg false)
           | 39, [A rg] => r (ViPasteReg rg true)
           | 60, [A op; A rg; A m] =>
-              if (0 <=? op) && (op <=? 2) && (0 <=? m) && (m <=? 7) then r (ViOp op rg m) else None
+              if (0 <=? op) && (op <=? 2) && (0 <=? m) && (m <=? 9) then r (ViOp op rg m 0) else None
+          | 60, [A op; A rg; A m; A marg] =>
+              (* the motion 0 cannot follow a count: the key 0 would continue the count *)
+              if (0 <=? op) && (op <=? 2) && (0 <=? m) && (m <=? 9) && (0 <=? marg)
+                 && negb ((m =? 3) && (0 <? marg))
+              then r (ViOp op rg m marg) else None
           | 40, [A orig; A ty; A key; A rg] =>
               if (0 <=? key) && (key <=? 4) && (0 <=? ty) && (ty <=? 2) then r (ViVisual orig ty key rg)
               else None
